@@ -196,6 +196,8 @@ mod intpack;
 mod nfa_builder;
 mod serializer;
 mod utils;
+#[cfg(daachorse_verif)]
+pub mod verif_hooks;
 
 use core::num::NonZeroU32;
 
